@@ -12,6 +12,15 @@
 (* resource that acquire() really obtained was logged as released before its       *)
 (* AcqRet line; so `r \in avail` at AcqRet is necessary for a correct pool, and a  *)
 (* resource handed to two holders at once is rejected.                             *)
+(* The same events come from the many-thread rounds (drv_respool --many: >= 64     *)
+(* live threads u1..uN take strict turns on one pool, u0 then acquires all          *)
+(* resources at once and destroys the pool).  There a resource is available         *)
+(* whenever acquire() is called, so a thread that does not return from acquire()    *)
+(* or ~ResourcePool() contradicts "acquire() blocks only while all resources are    *)
+(* held" / "every resource is returned"; the driver logs it as                      *)
+(*   Hang   t in held size releasers queued                                         *)
+(* which, like the Hang of the random programs, is never accepted.  A Reset line    *)
+(* of such a round carries threads/hold/churn instead of prog (not used here).      *)
 EXTENDS Integers, Sequences, FiniteSets, TLC, Json, IOUtils
 
 TraceLog == ndJsonDeserialize(IOEnv.TRACE)
